@@ -9,7 +9,8 @@ RULE = ("names: every name list of length <=3 over an 8-name alphabet (empty nam
         "each followed by var_by_name of every alphabet name, name_of of every index 0..len+1, the var_by_name(name_of(v)) round trip, Display, "
         "mk_var_by_name/mk_not_var_by_name; every single-byte name 0x00..0x7f and each of the 11 forbidden characters at the start/middle/end of a name; "
         "random lists of up to 40 names with injected duplicates/forbidden characters; make_variables in batches; new_anonymous(n) for n in 0..12, "
-        "100, 257, 1000 with lookups of x_i, x_0i, x_; the size limit: new_anonymous(65533/65534/65535), new() with 65534 names (thorough: new() with "
+        "100, 257, 1000 with lookups of x_i, x_0i, x_; the size limit: new_anonymous(65533/65534/65535), new() with 65534 names, new() with 65536 and 65541 names (length not "
+        "fitting 16 bits; thorough: 65535, 65537, 70000 as well, and from() with 65534 / 65536 names) (thorough: new() with "
         "65533 names and 65535 make_variable calls on one builder). constructors: mk_true/mk_false for 0..8 and 65533 variables, mk_var/mk_not_var/mk_literal for every "
         "variable of 1..6 variables, Bdd::from(valuation) for every valuation of <=6 variables and random ones up to 16; thresholds: every subset "
         "of <=4 of 4..6 variables in random order, with and without repetitions, every k in 0..6, random subsets of 8 variables with k up to 9. "
@@ -130,11 +131,18 @@ def programs(rng, tier):
             if i == 0:
                 return bytes(out)
 
-    big = [bigname(i) for i in range(65535)]
+    big = [bigname(i) for i in range(70000)]
     P.add(["vs_var_by_name", ["new", names_sx(big[:65534])], hx(big[1])])        # PANIC: too many
+    # lists whose length does not fit 16 bits (a `len as u16` before the size check would accept them modulo 65,536)
+    for n in ((65536, 65541) if tier == "quick" else (65535, 65536, 65537, 65541, 70000)):
+        P.add(["vs_var_by_name", ["new", names_sx(big[:n])], hx(big[1])])
+        P.add(["vs_summary", ["new", names_sx(big[:n])]])
+    if tier == "thorough":   # the builder path (quadratic in the model's association lists: minutes per case)
+        for n in (65534, 65536):
+            P.add(["vs_var_by_name", ["from", names_sx(big[:n])], hx(big[1])])
     if tier == "thorough":
         P.add(["vs_var_by_name", ["new", names_sx(big[:65533])], hx(big[65532])])
-        P.add(["vs_steps", names_sx(big)])                                       # 65534 successes, then PANIC
+        P.add(["vs_steps", names_sx(big[:65535])])                               # 65534 successes, then PANIC
     # ---- constants, literals, valuations
     for nv in list(range(0, 9)) + [65533]:
         P.add(["mk_true", str(nv)])
